@@ -1,9 +1,9 @@
 #!/bin/sh
 # soak: quick tier of every property over a range of VERIF_SEED values; prints one line per run, full output of failing runs
-FROM=${1:-1}; TO=${2:-12}; TIER=${3:-quick}
+FROM=${1:-1}; TO=${2:-12}; TIER=${3:-quick}; PROPS=${4:-"C17 C16 C12 C13"}
 mkdir -p .work/soak
 for sd in $(seq $FROM $TO); do
-  for p in C17 C16 C12 C13; do
+  for p in $PROPS; do
     VERIF_SEED=$sd VERIF_EVIDENCE_DIR=$PWD/.work/soak/evidence VERIF_REPLAY_DIR=$PWD/.work/soak/replays bin/simcheck $p --tier $TIER > .work/soak/$p-$sd.out 2>&1
     rc=$?
     echo "seed=$sd $p rc=$rc $(grep "simcheck\] $p/" .work/soak/$p-$sd.out | cut -c1-260)"
